@@ -676,7 +676,10 @@ impl<'a, R: ?Sized + std::io::BufRead> Tokenizer<'a, R> {
                     if nesting_count == 0 {
                         break;
                     }
-                    state.append_char(self.next_char()?.unwrap());
+                    state.append_char(
+                        self.next_char()?
+                            .ok_or(TokenizerError::UnterminatedExpansion)?,
+                    );
                 }
                 TokenEndReason::EndOfInput => {
                     return Err(TokenizerError::UnterminatedExpansion);
@@ -685,7 +688,12 @@ impl<'a, R: ?Sized + std::io::BufRead> Tokenizer<'a, R> {
             }
         }
 
-        state.append_char(self.next_char()?.unwrap());
+        // N.B. The terminating token may have been queued behind here-document tokens, in
+        // which case the input may already be exhausted by the time we get here.
+        state.append_char(
+            self.next_char()?
+                .ok_or(TokenizerError::UnterminatedExpansion)?,
+        );
         Ok(())
     }
 
@@ -1032,8 +1040,13 @@ impl<'a, R: ?Sized + std::io::BufRead> Tokenizer<'a, R> {
                                     TokenEndReason::NonNewLineBlank => state.append_char(' '),
                                     TokenEndReason::SpecifiedTerminatingChar => {
                                         // We hit the end brace we were looking for but did not
-                                        // yet consume it. Do so now.
-                                        state.append_char(self.next_char()?.unwrap());
+                                        // yet consume it. Do so now. (The token may have been
+                                        // queued behind here-document tokens, in which case the
+                                        // input may already be exhausted.)
+                                        state.append_char(
+                                            self.next_char()?
+                                                .ok_or(TokenizerError::UnterminatedVariable)?,
+                                        );
                                         break;
                                     }
                                     TokenEndReason::EndOfInput => {
